@@ -134,6 +134,14 @@ SchedSharedPlans == {pl \in Plans1 : pl.pools[1].fault = "sched-shared"}
 LatePlans == {pl \in Plans1 : pl.pools[1].fault \in {"agg-drop-on-cancel", "prov-at-the-very-end"} /\ ~pl.cancel}
 PanicPlans == {pl \in Plans1 : pl.pools[1].fault \in {"panic-first", "panic-later"} /\ ~pl.cancel}
 NonePlans == {pl \in Plans1 : pl.pools[1].fault = "none"}
+(* ---- three instances with a startup schedule (growth; thorough tier, MaxN = 3) ------------------------ *)
+\* startup schedule of 3 tokens, shared RPS schedule of 3 tokens, 4 ammo: the first instance synchronously, two more
+\* asynchronously (gun factory calls 2 and 3 race), all three compete for the schedule
+Three == [shape |-> "three-instances", n |-> 3, t |-> 3, ammo |-> 4]
+ThreeFaults == {"none", "agg-drop-on-cancel", "newgun-later", "panic-later"}
+Plans3 == { [id |-> 7000 + f, pools |-> <<Faults[f] @@ Three @@ Base @@ [fault |-> "none", shape |-> ""]>>, cancel |-> FALSE] :
+            f \in {g \in 1..NF : Faults[g].fault \in ThreeFaults} }
+Plans3Neg == {pl \in Plans3 : pl.pools[1].fault = "agg-drop-on-cancel"}
 QuickPlans == QuickPlans1 \cup QuickE
 ThoroughPlans == ThoroughPlans1 \cup ThoroughE
 =============================================================================
